@@ -552,7 +552,7 @@ Qed.
 Theorem c06_oracle_sound c : c06_valid c -> c06_check c = true -> c06_oracle c = None.
 Proof.
   destruct c as [P slots R0 kv0 wok evs lists|P R0 kv0 evs Rf kvf]; [|intros []].
-  cbn [c06_valid c06_check c06_oracle]. intros [Hs Htop] Hc.
+  cbn [c06_valid c06_check c06_oracle]. intros [Hs Htop] Hc. apply andb_true_iff in Hc as [_ Hc]. cbv zeta in Hc.
   apply andb_true_iff in Hc as [Hc _]. apply andb_true_iff in Hc as [Hc Hl]. apply andb_true_iff in Hc as [H0 He].
   destruct wok; cbn [negb orb] in *; [|reflexivity].
   apply (list_eqb_eq kv_eqb kv_eqb_eq) in H0. apply (list_eqb_eq ev_eqb ev_eqb_eq) in He.
@@ -567,4 +567,173 @@ Proof.
   - apply filter_ext_in. intros e He'. unfold in_window.
     rewrite Forall_forall in Htop. specialize (Htop e He'). apply N.leb_le in Htop. rewrite Htop.
     destruct (R0 <? e_rev e), (e_rev e <=? R'), (has_prefix P (e_key e)); reflexivity.
+Qed.
+
+(* ------------------------------------------------------------------ validity, decidably *)
+
+Lemma ev_sortedb_sorted l : ev_sortedb l = true -> sorted l.
+Proof.
+  intros H. apply Sorted_StronglySorted; [intros a b c; unfold lt_rev; apply N.lt_trans|].
+  induction l as [|a t IH]; [constructor|]. destruct t as [|b t']; [repeat constructor|].
+  cbn [ev_sortedb] in H. apply andb_true_iff in H as [Hab Ht]. constructor; [apply IH; exact Ht|].
+  constructor. unfold lt_rev. apply N.ltb_lt. exact Hab.
+Qed.
+
+Lemma c06_validb_valid c : c06_validb c = true -> c06_valid c.
+Proof.
+  destruct c as [P slots R0 kv0 wok evs lists|P R0 kv0 evs Rf kvf]; cbn [c06_validb c06_valid]; intros H; [|discriminate].
+  apply andb_true_iff in H as [Hs Ht]. split; [apply ev_sortedb_sorted; exact Hs|].
+  rewrite Forall_forall. rewrite forallb_forall in Ht. intros e He. apply N.leb_le. apply Ht. exact He.
+Qed.
+
+(* every list-then-watch case (plain, concurrent clients, mixed batches, hooked placements, partitioned stream, border
+   on a version record) that passes the check satisfies the property: no hypothesis is left, c06_check evaluates
+   validity itself *)
+Theorem c06_check_sound P slots R0 kv0 wok evs lists :
+  c06_check (KLw P slots R0 kv0 wok evs lists) = true -> c06_oracle (KLw P slots R0 kv0 wok evs lists) = None.
+Proof.
+  intros H. apply c06_oracle_sound; [|exact H]. apply c06_validb_valid.
+  cbn [c06_check] in H. apply andb_true_iff in H as [H _]. exact H.
+Qed.
+
+(* ------------------------------------------------------------------ the composed statement: list, then watch *)
+(* The watch system (all interleavings) fed with the slots of an arbitrary history of successful and failed writes:
+   a watcher started at R+1 on prefix P whose stream is open and settled has received exactly what turns the range
+   result at R into the range result at every later R' up to the committed revision. [C05_complete +
+   C06_events_are_versions + C06_replay; what remains outside is C03: List at R returns snapshot V R.] *)
+
+Lemma numbered_tail_above c0 slots k e :
+  numbered c0 slots -> In e (events_of (skipn k slots)) -> c0 + N.of_nat k < e_rev e.
+Proof.
+  intros Hnum He. unfold events_of in He. apply in_map_iff in He as [we [<- Hwe]]. apply filter_In in Hwe as [Hwe _].
+  apply In_nth_error in Hwe as [i Hi].
+  assert (Hi' : nth_error slots (k + i) = Some we).
+  { rewrite <- Hi. clear. revert slots; induction k as [|k IH]; intros [|h t]; cbn; auto. destruct i; reflexivity. }
+  cbn [to_event e_rev]. rewrite (Hnum _ _ Hi'). lia.
+Qed.
+
+Theorem list_then_watch pa l c0 h ls i w R R' :
+  0 < l ->
+  (forall we, In (LSeqTake we) ls -> In we (fst (exec c0 h))) ->
+  let s := run pa ls (init l c0) in
+  nth_error (s_ws s) i = Some w -> settled s w -> w_S w = R + 1 ->
+  R <= R' -> R' <= s_committed s ->
+  apply_events (filter (fun e => e_rev e <=? R') (concat (w_got w))) (in_prefix (w_P w) (snapshot (snd (exec c0 h)) R))
+  = in_prefix (w_P w) (snapshot (snd (exec c0 h)) R').
+Proof.
+  intros Hl Hin s Hn Hset HS HR HR'.
+  pose proof (complete_settled pa l c0 ls i w Hl Hn Hset) as Hgot. fold s in Hgot.
+  pose proof (events_are_versions_exec pa l c0 h ls Hin) as [Hev HV]. fold s in Hev.
+  destruct Hset as [Hcur _]. unfold cur_list in Hev. rewrite Hcur, app_nil_r in Hev.
+  rewrite <- (replay_exec_equal c0 h R R' (w_P w) HR).
+  f_equal.
+  rewrite Hgot, ideal_pos by lia. rewrite HS, Hev.
+  set (slots := fst (exec c0 h)) in *. set (k := N.to_nat (s_committed s - c0)) in *.
+  assert (Hnum : numbered c0 slots).
+  { unfold slots, exec. pose proof (exec_from_slots [] c0 h) as H. destruct (exec_from [] c0 h) as [sl V]. destruct H as [_ [H _]]. exact H. }
+  assert (Hc0 : c0 <= s_committed s).
+  { pose proof (events_are_versions pa l c0 slots ls Hnum Hin) as _.
+    assert (Hp : prod_inv c0 slots s).
+    { unfold s. clear -Hnum Hin. induction ls as [|lb ls IH] using rev_ind.
+      - split; [cbn; lia|]. cbn. replace (N.to_nat (c0 - c0)) with 0%nat by lia. reflexivity.
+      - rewrite run_snoc. apply prod_inv_step; [exact Hnum| |].
+        + intros we ->. apply Hin. apply in_app_iff. right. left. reflexivity.
+        + apply IH. intros we Hwe. apply Hin. apply in_app_iff. left. exact Hwe. }
+    exact (proj1 Hp). }
+  unfold fltE. rewrite filter_filter.
+  rewrite <- (firstn_skipn k slots) at 2. unfold events_of at 2. rewrite filter_app, map_app, filter_app.
+  fold (events_of (firstn k slots)). fold (events_of (skipn k slots)).
+  rewrite (filter_none _ (events_of (skipn k slots))).
+  - rewrite app_nil_r. apply filter_ext. intros e. unfold in_window.
+    replace (R + 1 <=? e_rev e) with (R <? e_rev e).
+    + destruct (R <? e_rev e), (e_rev e <=? R'), (has_prefix (w_P w) (e_key e)); reflexivity.
+    + destruct (R <? e_rev e) eqn:E1; [apply N.ltb_lt in E1; symmetry; apply N.leb_le; lia|apply N.ltb_ge in E1; symmetry; apply N.leb_gt; lia].
+  - intros e He. pose proof (numbered_tail_above c0 slots k e Hnum He) as Hgt. unfold in_window.
+    replace (e_rev e <=? R') with false by (symmetry; apply N.leb_gt; unfold k in Hgt; lia).
+    rewrite andb_false_r. reflexivity.
+Qed.
+
+(* the composed statement for ANY resolved slot sequence numbered c0+1, c0+2, ... — concurrent writers included: the
+   slot of revision r is whatever the writer that was dealt r reported, in whatever order the writers finished *)
+Theorem list_then_watch_slots pa l c0 slots ls i w R R' :
+  0 < l -> numbered c0 slots ->
+  (forall we, In (LSeqTake we) ls -> In we slots) ->
+  let s := run pa ls (init l c0) in
+  nth_error (s_ws s) i = Some w -> settled s w -> w_S w = R + 1 ->
+  R <= R' -> R' <= s_committed s ->
+  apply_events (filter (fun e => e_rev e <=? R') (concat (w_got w))) (in_prefix (w_P w) (snapshot (versions_of slots) R))
+  = in_prefix (w_P w) (snapshot (versions_of slots) R').
+Proof.
+  intros Hl Hnum Hin s Hn Hset HS HR HR'.
+  pose proof (complete_settled pa l c0 ls i w Hl Hn Hset) as Hgot. fold s in Hgot.
+  pose proof (events_are_versions pa l c0 slots ls Hnum Hin) as Hev. cbv zeta in Hev. fold s in Hev.
+  destruct Hset as [Hcur _]. unfold cur_list in Hev. rewrite Hcur, app_nil_r in Hev.
+  rewrite <- (replay_equal slots R R' (w_P w) (numbered_sorted slots c0 Hnum) HR).
+  f_equal.
+  rewrite Hgot, ideal_pos by lia. rewrite HS, Hev.
+  set (k := N.to_nat (s_committed s - c0)) in *.
+  assert (Hc0 : c0 <= s_committed s).
+  { assert (Hp : prod_inv c0 slots s).
+    { unfold s. clear -Hnum Hin. induction ls as [|lb ls IH] using rev_ind.
+      - split; [cbn; lia|]. cbn. replace (N.to_nat (c0 - c0)) with 0%nat by lia. reflexivity.
+      - rewrite run_snoc. apply prod_inv_step; [exact Hnum| |].
+        + intros we ->. apply Hin. apply in_app_iff. right. left. reflexivity.
+        + apply IH. intros we Hwe. apply Hin. apply in_app_iff. left. exact Hwe. }
+    exact (proj1 Hp). }
+  unfold fltE. rewrite filter_filter.
+  rewrite <- (firstn_skipn k slots) at 2. unfold events_of at 2. rewrite filter_app, map_app, filter_app.
+  fold (events_of (firstn k slots)). fold (events_of (skipn k slots)).
+  rewrite (filter_none _ (events_of (skipn k slots))).
+  - rewrite app_nil_r. apply filter_ext. intros e. unfold in_window.
+    replace (R + 1 <=? e_rev e) with (R <? e_rev e).
+    + destruct (R <? e_rev e), (e_rev e <=? R'), (has_prefix (w_P w) (e_key e)); reflexivity.
+    + destruct (R <? e_rev e) eqn:E1; [apply N.ltb_lt in E1; symmetry; apply N.leb_le; lia|apply N.ltb_ge in E1; symmetry; apply N.leb_gt; lia].
+  - intros e He. pose proof (numbered_tail_above c0 slots k e Hnum He) as Hgt. unfold in_window.
+    replace (e_rev e <=? R') with false by (symmetry; apply N.leb_gt; unfold k in Hgt; lia).
+    rewrite andb_false_r. reflexivity.
+Qed.
+
+(* ------------------------------------------------------------------ decidable forms of the compaction hypotheses *)
+
+Fixpoint newest_firstb (V : list version) : bool :=
+  match V with
+  | a :: (b :: _) as t => (v_rev b <? v_rev a) && newest_firstb t
+  | _ => true
+  end.
+
+Lemma newest_firstb_ok V : newest_firstb V = true -> newest_first V.
+Proof.
+  intros H. unfold newest_first. apply Sorted_StronglySorted; [intros a b c Hab Hbc; lia|].
+  induction V as [|a t IH]; [constructor|]. destruct t as [|b t']; [repeat constructor|].
+  cbn [newest_firstb] in H. apply andb_true_iff in H as [Hab Ht]. constructor; [apply IH; exact Ht|].
+  constructor. apply N.ltb_lt. exact Hab.
+Qed.
+
+Definition compaction_ruleb (V : list version) (floor : N) (keep : version -> bool) : bool :=
+  forallb (fun x => keep x ||
+                    (removable V floor x &&
+                     forallb (fun y => negb (beqb (v_key y) (v_key x) && (v_rev y <? v_rev x)) || negb (keep y)) V)) V.
+
+Lemma compaction_ruleb_ok V floor keep : compaction_ruleb V floor keep = true -> compaction_rule V floor keep.
+Proof.
+  unfold compaction_ruleb, compaction_rule. intros H x Hx Hk. rewrite forallb_forall in H. specialize (H x Hx).
+  rewrite Hk in H. cbn [orb] in H. apply andb_true_iff in H as [Hr Hc]. split; [exact Hr|].
+  intros y Hy Hky Hlt. rewrite forallb_forall in Hc. specialize (Hc y Hy).
+  rewrite Hky in Hc. replace (v_rev y <? v_rev x) with true in Hc by (symmetry; apply N.ltb_lt; exact Hlt).
+  cbn [andb negb orb] in Hc. apply negb_true_iff in Hc. exact Hc.
+Qed.
+
+Fixpoint numberedb (r : N) (slots : list wevent) : bool :=
+  match slots with
+  | [] => true
+  | we :: t => (we_rev we =? r + 1) && numberedb (r + 1) t
+  end.
+
+Lemma numberedb_ok c0 slots : numberedb c0 slots = true -> numbered c0 slots.
+Proof.
+  revert c0; induction slots as [|we t IH]; intros c0 H i x Hi; [destruct i; discriminate|].
+  cbn [numberedb] in H. apply andb_true_iff in H as [Hr Ht]. apply N.eqb_eq in Hr.
+  destruct i as [|i]; cbn [nth_error] in Hi.
+  - injection Hi as <-. lia.
+  - rewrite (IH (c0 + 1) Ht i x Hi). lia.
 Qed.
